@@ -7,6 +7,8 @@ from .. import paths
 from ..core import FUNC, call_attr, calls_in, const, dotted, is_const, kwarg, norm, slice_parts, text, walk_local
 
 EXPLANATION = [
+    'C17.parser-reset: the push parser consumes what it needs, resets after emission and before raising on an unknown type byte, and contains sink exceptions (same rule as C02.push-parser).',
+    'C17.response-routing: the HF reader queues a line as a command response only under `self.pending_command`, which execute_command clears in finally.',
     'C17.contain: every hand-over of a received packet to a sink at the transport boundary is inside try/except Exception (or is a '
     'pass-through inside such a sink); Host.on_packet contains parse errors; L2CAP signalling answers a Command Reject when a handler '
     'raises or the code is unknown; SMP handler exceptions become a two-sided pairing failure.',
@@ -459,7 +461,47 @@ def locks(ctx):
     R.check(n + n_with >= 4, rule, 'coverage', f'{n + n_with} lock uses', f'only {n + n_with} lock uses found')
 
 
+
+def parser_reset(ctx):
+    """The push parser of the byte-stream transports is framed from scratch after any rejected byte (rules shared with C02)."""
+    from . import c02
+    c02.push_parser(ctx, rule='C17.parser-reset')
+
+
+def response_routing(ctx):
+    """The HF reader hands a line to the command-response queue only while a command is outstanding."""
+    R, p = ctx.r, ctx.p
+    rule = 'C17.response-routing'
+    fn = p.find('bumble.hfp.HfProtocol._read_at')
+    if fn is None:
+        R.bad(rule, 'bumble.hfp.HfProtocol._read_at', 'anchor missing')
+        return
+    puts = [c for c in calls_in(fn) if call_attr(c) == 'put_nowait' and dotted(c.func.value) == 'self.response_queue']
+    ok = bool(puts)
+    for c in puts:
+        g = [(norm(t), pol) for t, pol in paths.flat_guards(c)]
+        ok = ok and ('self.pending_command', True) in g
+    R.check(ok, rule, 'bumble.hfp.HfProtocol._read_at | response queue', 'lines are queued as command responses only under `self.pending_command`',
+            'a final result code received while no command is outstanding is queued as a response: it is taken as the answer to the next command and every later command/response pair is shifted by one', p.loc(fn))
+    uns = [c for c in calls_in(fn) if call_attr(c) == 'put_nowait' and dotted(c.func.value) == 'self.unsolicited_queue']
+    same_if = False
+    if len(uns) == 1 and len(puts) == 1:
+        for n_ in ast.walk(fn):
+            if isinstance(n_, ast.If):
+                in_body = any(puts[0] is x for s_ in n_.body for x in ast.walk(s_))
+                in_else = any(uns[0] is x for s_ in n_.orelse for x in ast.walk(s_))
+                same_if = same_if or (in_body and in_else)
+    R.check(same_if, rule, 'bumble.hfp.HfProtocol._read_at | every line routed', 'each parsed line goes to exactly one of the two queues (if/else)', 'a parsed line may be dropped or queued twice', p.loc(fn))
+    ex = p.find('bumble.hfp.HfProtocol.execute_command')
+    if ex is not None:
+        fin = [t for t in ast.walk(ex) if isinstance(t, ast.Try) and t.finalbody]
+        ok = any(norm(s_) == 'self.pending_command = None' for t in fin for s_ in t.finalbody)
+        R.check(ok, rule, 'bumble.hfp.HfProtocol.execute_command | pending cleared', 'pending_command is cleared in finally (also on timeout / error)', 'pending_command can stay set after a failed command: unsolicited lines are then swallowed as responses', p.loc(ex))
+
+
 RULES = [
+    ('C17.parser-reset', parser_reset),
+    ('C17.response-routing', response_routing),
     ('C17.contain', contain),
     ('C17.recursion', recursion),
     ('C17.loops', loops),
@@ -485,4 +527,6 @@ VARIANTS = [
     ('command semaphore released only on success', 'bumble/host.py',
      "        # Flush current host state, then release command semaphore\n        self.emit('flush')\n        self.command_semaphore.release()\n", "        # Flush current host state, then release command semaphore\n        self.emit('flush')\n        await asyncio.sleep(0)\n", 'fire', 'C17.locks'),
     ('benign: warning text', 'bumble/l2cap.py', "            logger.warning('received PDU while not connected, dropping')\n", "            logger.warning('received a PDU while not connected, dropping it')\n", 'silent', ''),
+    ('status codes queued without a pending command', 'bumble/hfp.py', "            if self.pending_command and (\n                response.code in STATUS_CODES or response.code in self.pending_command\n            ):", "            if response.code in STATUS_CODES or (\n                self.pending_command and response.code in self.pending_command\n            ):", 'fire', 'C17.response-routing'),
+    ('parser not reset before raising', 'bumble/transport/common.py', "                    if self.packet_info is None:\n                        self.reset()\n", "                    if self.packet_info is None:\n", 'fire', 'C17.parser-reset'),
 ]
